@@ -168,10 +168,13 @@ pdgstrf(superlumt_options_t *superlumt_options, SuperMatrix *A, int_t *perm_r,
     if ( *info ) return;
 
     /* Start timing factorization. */
+    SLU_VERIF_EVL("Etree", -1, superlumt_options->etree, A->ncol, A->ncol);
+    SLU_VERIF_EVL("SuperBnd", -1, superlumt_options->part_super_h, A->ncol, A->ncol);
     SLU_VERIF_EVL("Create", -1, pxgstrf_shared.Glu->map_in_sup, A->ncol + 1,
 		  nprocs, A->ncol, pxgstrf_shared.Glu->nzlumax,
 		  pxgstrf_shared.Glu->dynamic_snode_bound,
-		  pxgstrf_shared.Glu->nextlu);
+		  pxgstrf_shared.Glu->nextlu, superlumt_options->panel_size,
+		  superlumt_options->relax, sp_ienv(3));
     usrtime = usertimer_();
     wtime = SuperLU_timer_(); 
 
